@@ -213,6 +213,9 @@ bool QXmppRosterManager::handleStanza(const QDomElement &element)
     rosterIq.parse(element);
 
     switch (rosterIq.type()) {
+    case QXmppIq::Get:
+        // a roster request is not ours to answer: the client replies with an error
+        return false;
     case QXmppIq::Set: {
         // send result iq
         QXmppIq returnIq(QXmppIq::Result);
